@@ -99,7 +99,7 @@ StructClause(rec) ==
              clsnt[rec.pairs[q][1]] # clsnt[rec.pairs[q][2]]
        THEN "differs_in_more_than_tags"
   ELSE IF has("nozero") /\ \E k \in 1..Len(g.nodes) : g.nodes[k].zc THEN "zero_call_left"
-  ELSE IF has("lowered") /\ \E k \in 1..Len(g.nodes) : g.nodes[k].kind \notin {"il", "in"}
+  ELSE IF has("lowered") /\ \E k \in 1..Len(g.nodes) : g.nodes[k].kind \notin {"il", "in", "lpres"}
        THEN "not_lowered"
   ELSE IF has("nodup_data") /\ \E j, k \in 1..Len(g.nodes) :
              /\ j < k /\ g.nodes[j].kind = "in" /\ g.nodes[k].kind = "in"
